@@ -7,5 +7,4 @@ CONSTANTS
   Pens = {0, 1}
 INVARIANT Defined
 INVARIANT StepTheorems
-INVARIANT SearchAgrees
 CHECK_DEADLOCK FALSE
